@@ -195,6 +195,16 @@ pub fn run_one(rng: &mut Rng, t: &mut Trace, tier: &str) -> usize {
         scfg.window_ack_size = *rng.pick(&any);
     }
     scfg.send_on_bw_done_message_on_start = rng.chance(1, 2);
+    let (sent, log, _) = exchange(rng, tier, ccfg, scfg, mode);
+    for e in &log {
+        t.emit(e);
+    }
+    sent
+}
+
+/// One complete dialogue between a real client session and a real server session with the given configurations.
+/// Returns (items sent, the log, whether every call succeeded, everything sent was raised and the dialogue finished).
+pub fn exchange(rng: &mut Rng, tier: &str, ccfg: ClientSessionConfig, scfg: ServerSessionConfig, mode: u64) -> (usize, Vec<Value>, bool) {
     let small_cs = ccfg.chunk_size < 128 || scfg.chunk_size < 128;
     let tiny_win = ccfg.window_ack_size < 1000 || scfg.window_ack_size < 1000;
     let publish = rng.chance(1, 2);
@@ -277,10 +287,8 @@ pub fn run_one(rng: &mut Rng, t: &mut Trace, tier: &str) -> usize {
     }
     let quiescent = wld.c2s.is_empty() && wld.s2c.is_empty();
     wld.log.push(json!({"ev":"End","quiescent":quiescent}));
-    for e in &wld.log {
-        t.emit(e);
-    }
-    sent
+    let good = !wld.failed && quiescent && wld.received >= sent && wld.finished;
+    (sent, wld.log, good)
 }
 
 pub fn generate(tier: &str, seed: u64, shard: u64, nshards: u64, path: &str) -> Value {
